@@ -83,7 +83,7 @@ CHECKS = {
         text=('Lean theorems for both engines: the document-level deletion statement for the default engine (C09_key_deletion: any class without catch-all, any field loaders and Meta, any document that loads, any set of deleted keys - the sub-document loads exactly when no constructor field without default lost all the keys that resolve to it, else MissingFields names the class and exactly those fields; on success every field holds the converted value of the last remaining key, else its default / fresh factory product - induction over the key loop, which treats every key on its own); exact MissingFields list (class + exactly the absent required constructor fields, in declaration order for v1), init=False never demanded, defaulted never missing, on success every field holds the last supplied value or its default, kwargs contain constructor fields only (v1), a nested failure passes unchanged; models tied to the code by exhaustive key-subset correspondence (power sets) on default and v1 classes, on families of classes related by inheritance loaded in one history (derived classes adding required / defaulted fields; the result is an instance of the class asked for) and with debug mode switched on for the main class'),
         technique='Lean 4 proof over hand models of both engines + exhaustive subset correspondence', ref='4 C09'),
     'C10': dict(
-        text=('Lean theorems for both engines: RAISE never accepts a document containing an unknown key and names exactly the unknown keys and the class; catch-all captures exactly the unknown pairs in order minus the whitelisted tag key; unknown keys never change mapped fields; v1: the len(o) != i test holds iff the document has an unknown pair (counting proof under V1WellKeyed), IGNORE drops, witnesses of the recorded findings; models tied to the code over policy x depth x repetition x tag presence x history (load-first / dump-first / second root), dump of captured keys compared with the dump model'),
+        text=('Lean theorems for both engines: RAISE never accepts a document containing an unknown key and names exactly the unknown keys and the class; catch-all captures exactly the unknown pairs in order minus the whitelisted tag key; unknown keys never change mapped fields; v1: the len(o) != i test holds iff the document has an unknown pair (counting proof under V1WellKeyed), IGNORE drops, witnesses of the recorded findings; models tied to the code over policy x depth x repetition x tag presence x history (load-first / dump-first / second root), dump of captured keys compared with the dump model; write-back clause: on the dump model a successful dump contains every item of the CatchAll mapping, key as given, for every Meta (skip_if / skip_defaults_if / skip_defaults / dump key transform) and skip_defaults argument (C10_writeback_whatever_dump_settings, C10_writeback_keys_as_given), tied to the code by a stream over CatchAll classes x those settings (own or cascading) x SkipIf on other fields x unknown values the settings look at (None / 0 / False / empty / equal to a default) x every way of dumping, both engines'),
         technique='Lean 4 proof over hand models of both engines + differential correspondence', ref='4 C10'),
     'C11': dict(
         text=("Lean theorems: the generated skip bookkeeping omits exactly the reference selection (exclude, dump=False, skip_defaults "
